@@ -248,11 +248,12 @@ def deferredError (o : WalkOpts) (surfaced : List Spec) : Spec × Entry → Opti
   | _ => none
 
 /-- `walk(..).errors()` collected: per entry the pushed errors are popped from the back; at the
-end of the walk the skipped missing entries nothing surfaced, in visiting order -/
+end of the walk the skipped missing entries nothing surfaced, in visiting order (repair of F5;
+that the iterator does so is the regenerated table `errorsReportSkippedMissing`) -/
 def Graph.errors (g : Graph) (o : WalkOpts) (roots : List Spec) : List ErrOut :=
   let w := g.walk o roots
   (w.flatMap fun (key, e) => (entryErrors g o key e).reverse) ++
-    w.filterMap (deferredError o (surfacedIn g o w))
+    (if errorsReportSkippedMissing then w.filterMap (deferredError o (surfacedIn g o w)) else [])
 
 /-- `walk(..).validate()`: the first error, if any -/
 def Graph.validate (g : Graph) (o : WalkOpts) (roots : List Spec) : Option ErrOut :=
